@@ -3,6 +3,7 @@ CONSTANTS
   Fix <- FixAll
   MaxOps = 4
   Free = TRUE
+  ReportMeansDead = FALSE
   Hist = FALSE
   Cases <- FreeCases
 INVARIANT TypeOK
